@@ -26,7 +26,7 @@ FAMILIES_OF = {
     "C16": ["snapshot"],
     "C20": ["cache"],
 }
-SIZES = {"quick": 1000, "thorough": 20000}
+SIZES = {"quick": 1000, "thorough": 10000}
 
 DUMP_ATTACH = ('\n#[cfg(verif_cert)]\n#[path = "%s"]\nmod verif_cert;\n')
 VARMAP_ACCESSOR = ('\n#[cfg(verif_cert)]\nimpl VariableMap {\n    pub(crate) fn verif_next_id(&self) -> usize {\n'
